@@ -29,6 +29,7 @@ func init() {
 			{ID: "C03.3", Doc: "stalled armed only when nothing is in flight and nothing qualifies", Floor: 2, Run: c03r3},
 			{ID: "C03.4", Doc: "Stop completes", Floor: 5, Run: c03r4},
 			{ID: "C03.5", Doc: "who may be left unqueried at stall", Floor: 4, Run: c03r5},
+			{ID: "C03.6", Doc: "no address is queried twice (finiteness of the query sequence; shared with C04.3)", Floor: 3, Run: c04r3},
 		},
 	})
 }
